@@ -4,7 +4,7 @@
 #   binding 1: every edge of the TaskPool state graph is replayed on a real arena_slot, (head, tail, lock word) compared per step
 #   binding 2: Spawn/Got events of the replays (TraceTaskPool) and Submit/Begin/End/WaitRet events of integrated scenarios on 2-4 logical
 #              threads (nested groups, tasks submitting tasks, enqueued / deferred handles, run_and_wait, execute) are validated by TLC.
-import os, json, vlib, schedlib
+import os, re, json, vlib, schedlib
 SD = schedlib.SD
 
 
@@ -36,6 +36,28 @@ def run(res, tier, seed):
                                  sig_fn=lambda tr: 'taskpool:' + ('stuck' if any(e['e'] == 'Stuck' for e in tr) else 'dup-or-loss'))
         vlib.log('%s: %d states, %d/%d edges in %d schedules, %d real steps, drift %d, mismatch %d' % (tag, r.distinct, cov, tot, len(paths), s['steps'], s['drift'], s['state_mismatch']))
         os.unlink(sched)
+    # affinity mail: every edge of Mailbox replayed on a real mail_outbox and real task_proxy objects
+    mexe = vlib.build_harness('h_mailbox', ['sched/h_mailbox.cpp'])
+    for cfg, np_ in [('Mailbox_2.cfg', '2')] + ([('Mailbox_3.cfg', '3')] if thorough else []):
+        tag = 'c01-' + cfg[:-4]
+        dot = os.path.join(vlib.BUILD, 'graphs', tag + '.dot')
+        r = vlib.tlc(SD, 'Mailbox', cfg, dump=dot, deadlock=False); res.add_tlc(r, 'Mailbox:' + cfg + '(graph)'); vlib.tlc_must_hold(r, tag)
+        if r.violation:
+            raise vlib.HarnessFailure('Mailbox model violates %s' % r.violation)
+        nodes, edges, init = vlib.parse_dot(dot, ['first', 'last', 'tat', 'nxt'], raw=True); os.unlink(dot)
+
+        def conv(v):
+            f = v.split('\x1f')
+            return ','.join([f[0], f[1]] + re.findall(r'(none|both|pool|mail)', f[2]) + re.findall(r'\d+', f[3].replace('<<', '').replace('>>', '')))
+        nodes = {k: conv(v) for k, v in nodes.items()}
+        paths, cov, tot = vlib.edge_cover(nodes, edges, init)
+        sched = os.path.join(vlib.BUILD, 'graphs', tag + '.sched'); vlib.write_schedules(paths, sched)
+        sums, tfs = vlib.run_harness_parallel(lambda part, tf: [mexe, part, tf, np_], sched, tag, timeout=900)
+        s = vlib.sum_dicts(sums); drift += s['drift'] + s['state_mismatch']; ec += cov; et += tot; os.unlink(sched)
+        vlib.validate_and_report(res, SD, 'TraceMailbox', 'TraceMailbox.cfg', vlib.collect_traces(tfs), tag,
+                                 lambda tr: 'replay of Mailbox on the real mail_outbox / task_proxy: a mailed task was claimed twice or never, or a proxy was freed twice / used after it was freed: ' + json.dumps([e for e in tr if not e['e'].startswith('#')]),
+                                 sig_fn=lambda tr: 'mailbox:' + ('stuck' if any(e['e'] == 'Stuck' for e in tr) else 'claim-or-free'))
+        vlib.log('%s: %d states, %d/%d edges in %d schedules, %d real steps, drift %d, mismatch %d' % (tag, r.distinct, cov, tot, len(paths), s['steps'], s['drift'], s['state_mismatch']))
     schedlib.run_scenarios(res, 'C01', 'c01', 40 if not thorough else 600, seed)
     res.extra.update({'spec_edges_replayed': ec, 'spec_edges_total': et, 'drift_steps': drift})
     res.exhaustive = (ec == et)
